@@ -131,7 +131,7 @@ CONTRACTS = [
         result_type="matsq",
         replay=replay_bs,
         props=["C01"],
-        assumes=["lemma M3 (identity outside a unitary 2x2 block is unitary): trusted mathematics"],
+        assumes=["lemma M3bs (identity outside the two modes + the four block identities => unitary): kernel-checked by Lean 4 + Mathlib, vf/lemmas/lean/Lemmas.lean"],
     ),
     Contract(
         target=f"{F}:PhaseShifter.get_unitary",
@@ -168,7 +168,7 @@ CONTRACTS = [
         result_type="matsq",
         replay=replay_loss,
         props=["C01"],
-        assumes=["lemma M3 (identity outside a unitary 2x2 block is unitary): trusted mathematics"],
+        assumes=["lemma M3bs (identity outside the two modes + the four block identities => unitary): kernel-checked by Lean 4 + Mathlib, vf/lemmas/lean/Lemmas.lean"],
     ),
     Contract(
         target=f"{F}:Barrier.get_unitary",
